@@ -10955,7 +10955,7 @@ func E11SplitKeepsEndpoint(c *core.Ctx, r *core.Report) {
 
 // E11MatrixComposers: a Matrix method that composes does so by multiplication only.
 func E11MatrixComposers(c *core.Ctx, r *core.Report) {
-	r.Rule("E11.matrix-composers", "Matrix documents that its transformation methods compose on the right: m.Op(…) is m·Op. The methods that build their result by calling Mul or another Matrix-returning method (Translate, Rotate, RotateAbout, Scale, ScaleAbout, Shear, ShearAbout, the reflections) therefore get it from such calls alone and never write an element of a Matrix value themselves: a correction added straight into the translation column (`m[0][2] += …`) is not mapped through the receiver's linear part, so the method is right on the identity and on pure translations only — RotateAbout on a scaled receiver would move the pivot")
+	r.Rule("E11.matrix-composers", "Matrix documents that its transformation methods compose on the right: m.Op(…) is m·Op. The methods that build their result by calling Mul or another Matrix-returning method (Translate, Rotate, RotateAbout, Scale, ScaleAbout, Shear, ShearAbout, the reflections) therefore get it from such calls alone, and no Matrix-returning method of Matrix ever writes an element of a Matrix value (the ones that work on entries — Mul, T, Inv — return a fresh literal): a correction added straight into the translation column (`m[0][2] += …`) is not mapped through the receiver's linear part, so the method is right on the identity and on pure translations only — RotateAbout on a scaled receiver would move the pivot")
 	p := c.MustPkg("")
 	info := p.TypesInfo
 	isMatrix := func(t types.Type) bool {
@@ -10971,6 +10971,7 @@ func E11MatrixComposers(c *core.Ctx, r *core.Report) {
 			continue
 		}
 		composes := false
+		writes := 0
 		var write ast.Node
 		ast.Inspect(fd.Body, func(m ast.Node) bool {
 			switch x := m.(type) {
@@ -10983,6 +10984,7 @@ func E11MatrixComposers(c *core.Ctx, r *core.Report) {
 					}
 				}
 			case *ast.AssignStmt:
+				hit := false
 				for _, l := range x.Lhs {
 					e := core.Unparen(l)
 					for {
@@ -10990,32 +10992,46 @@ func E11MatrixComposers(c *core.Ctx, r *core.Report) {
 						if !ok {
 							break
 						}
-						if t := info.TypeOf(ie.X); t != nil && isMatrix(t) && write == nil {
-							write = x
+						if t := info.TypeOf(ie.X); t != nil && isMatrix(t) {
+							hit = true
+							if write == nil {
+								write = x
+							}
 						}
 						e = core.Unparen(ie.X)
 					}
 				}
+				if hit {
+					writes++
+				}
 			case *ast.IncDecStmt:
 				if ie, ok := core.Unparen(x.X).(*ast.IndexExpr); ok {
 					if ie2, ok := core.Unparen(ie.X).(*ast.IndexExpr); ok {
-						if t := info.TypeOf(ie2.X); t != nil && isMatrix(t) && write == nil {
-							write = x
+						if t := info.TypeOf(ie2.X); t != nil && isMatrix(t) {
+							writes++
+							if write == nil {
+								write = x
+							}
 						}
 					}
 				}
 			}
 			return true
 		})
-		if !composes {
-			continue
+		if !composes && write == nil {
+			continue // builds a fresh literal from the entries (Mul, Inv)
+		}
+		if !composes && writes == 1 {
+			if as, ok := write.(*ast.AssignStmt); ok && as.Tok == token.ASSIGN {
+				continue // one parallel assignment reads every entry before it writes any (T swaps two entries)
+			}
 		}
 		n++
 		key := "canvas." + core.FuncName(fd) + "|composes by multiplication only"
 		if write == nil {
 			r.OK("E11.matrix-composers", key, c.Pos(fd.Pos()), "")
 		} else {
-			r.Fail("E11.matrix-composers", key, c.Pos(write.Pos()), fmt.Sprintf("%s composes through a Matrix method and then writes an element of a Matrix directly: what is added to an entry is not multiplied by the receiver's linear part, so the result equals m·Op only when the receiver is the identity or a translation", core.FuncName(fd)))
+			r.Fail("E11.matrix-composers", key, c.Pos(write.Pos()), fmt.Sprintf("%s writes an element of a Matrix directly instead of getting its result from Mul (or from another composing method): entries updated one after the other read entries that were already changed, and a term added to an entry is not multiplied by the receiver's linear part — the result equals m·Op only for special receivers (the identity, translations, scalings)", core.FuncName(fd)))
 		}
 	}
 	r.Count("E11.matrix-composers", n)
@@ -12054,4 +12070,159 @@ func E11ViewBoxSeparators(c *core.Ctx, r *core.Report) {
 	default:
 		r.Fail("E11.viewbox-separators", key, c.Pos(pos), "the call that splits the viewBox attribute into its numbers was not recognised (strings.FieldsFunc with a predicate for space and comma, strings.Fields after replacing commas, or the importer's number-list reader)")
 	}
+}
+
+// E11ViewScaleInvariant: the view's magnification is taken from the whole matrix, not from its diagonal.
+func E11ViewScaleInvariant(c *core.Ctx, r *core.Report) {
+	r.Rule("E11.view-scale-invariant", "the path renderers scale a tolerance, a stroke width or dash lengths by the magnification of the view matrix. That factor must not change under rotation of the view, so RenderPath of every back-end (rasterizer, PDF, PS, SVG) uses its matrix parameter only as a whole — as the receiver or an argument of a call (Decompose, Det, IsSimilarity, Transform, Mul, …) — and never reads single entries `m[i][j]`: the diagonal of a view rotated by a quarter turn is zero whatever its scale, and a tolerance left unscaled under a 60× magnification flattens the stroke outline 6 px off")
+	n := 0
+	for _, spec := range []struct{ rel, fn string }{{"renderers/rasterizer", "Rasterizer.RenderPath"}, {"renderers/pdf", "PDF.RenderPath"}, {"renderers/ps", "PS.RenderPath"}, {"renderers/svg", "SVG.RenderPath"}} {
+		p := c.MustPkg(spec.rel)
+		info := p.TypesInfo
+		fd := core.MustFuncDecl(p, spec.fn)
+		r.Func(p.Types.Name() + "." + spec.fn)
+		var mObj types.Object
+		for _, f := range fd.Type.Params.List {
+			for _, nm := range f.Names {
+				if o := info.Defs[nm]; o != nil && strings.HasSuffix(o.Type().String(), "canvas.Matrix") {
+					mObj = o
+				}
+			}
+		}
+		if mObj == nil {
+			panic(core.Infra(spec.fn + ": matrix parameter not found"))
+		}
+		// matrix-typed aliases (m2 := m.Scale(…)) count as the matrix too
+		mats := map[types.Object]bool{mObj: true}
+		ast.Inspect(fd.Body, func(m ast.Node) bool {
+			if as, ok := m.(*ast.AssignStmt); ok {
+				for _, l := range as.Lhs {
+					if id, ok := l.(*ast.Ident); ok {
+						if o := core.ObjOf(info, id); o != nil && strings.HasSuffix(o.Type().String(), "canvas.Matrix") {
+							mats[o] = true
+						}
+					}
+				}
+			}
+			return true
+		})
+		uses, k := 0, 0
+		var stack []ast.Node
+		ast.Inspect(fd.Body, func(m ast.Node) bool {
+			if m == nil {
+				stack = stack[:len(stack)-1]
+				return true
+			}
+			stack = append(stack, m)
+			id, ok := m.(*ast.Ident)
+			if !ok || !mats[core.ObjOf(info, id)] || len(stack) < 2 {
+				return true
+			}
+			uses++
+			if ie, ok := stack[len(stack)-2].(*ast.IndexExpr); ok && ie.X == ast.Expr(id) {
+				// not the left-hand side of an assignment to an entry? entries are never written here either
+				k++
+				n++
+				src := types.ExprString(ie)
+				if len(stack) >= 3 {
+					if ie2, ok := stack[len(stack)-3].(*ast.IndexExpr); ok {
+						src = types.ExprString(ie2)
+					}
+				}
+				r.Fail("E11.view-scale-invariant", fmt.Sprintf("%s.%s|entry of the view matrix read #%d", p.Types.Name(), spec.fn, k), c.Pos(ie.Pos()), fmt.Sprintf("`%s` reads one entry of the view matrix: a magnification (or any other property of the view) taken from single entries changes with the rotation of the view — on the diagonal it vanishes at a quarter turn — so a tolerance or width derived from it is wrong for rotated views", src))
+			}
+			return true
+		})
+		n++
+		key := fmt.Sprintf("%s.%s|the view matrix is used as a whole", p.Types.Name(), spec.fn)
+		if k == 0 {
+			r.OK("E11.view-scale-invariant", key, c.Pos(fd.Pos()), fmt.Sprintf("%d uses, none indexed", uses))
+		}
+	}
+	r.Count("E11.view-scale-invariant", n)
+	r.Floor("E11.view-scale-invariant", 4)
+}
+
+// E11ImageExtentFromSize: the extent of an image is the size of its rectangle, not its far corner.
+func E11ImageExtentFromSize(c *core.Ctx, r *core.Report) {
+	r.Rule("E11.image-extent-from-size", "an image.Image may have a rectangle that does not start at (0,0) (a SubImage crop); renderers and Canvas.Fit treat it as occupying (0,0)–(Size) in its own pixel space. In canvas.go every use of the far corner of an image rectangle (`.Max.X`, `.Max.Y` of a value of type image.Rectangle) occurs in an expression that also takes the near corner of the same axis (`Max − Min`), or the extent is taken with Size()/Dx()/Dy(). An extent or a reflection axis computed from Max alone is off by Min: a cropped image drawn under CartesianII–IV stays upright but is displaced")
+	p := c.MustPkg("")
+	info := p.TypesInfo
+	isRect := func(e ast.Expr) bool {
+		t := info.TypeOf(e)
+		if t == nil {
+			return false
+		}
+		nt, ok := t.(*types.Named)
+		return ok && nt.Obj().Name() == "Rectangle" && nt.Obj().Pkg() != nil && nt.Obj().Pkg().Path() == "image"
+	}
+	n := 0
+	for _, fd := range core.AllFuncDecls(p) {
+		if fd.Body == nil || !strings.HasSuffix(c.Fset.Position(fd.Pos()).Filename, "canvas.go") {
+			continue
+		}
+		k := 0
+		var stack []ast.Node
+		ast.Inspect(fd.Body, func(m ast.Node) bool {
+			if m == nil {
+				stack = stack[:len(stack)-1]
+				return true
+			}
+			stack = append(stack, m)
+			// extents taken with Size()/Dx()/Dy()
+			if call, ok := m.(*ast.CallExpr); ok {
+				if se, ok := call.Fun.(*ast.SelectorExpr); ok && isRect(se.X) && (se.Sel.Name == "Size" || se.Sel.Name == "Dx" || se.Sel.Name == "Dy") {
+					k++
+					n++
+					r.OK("E11.image-extent-from-size", fmt.Sprintf("canvas.%s|image extent #%d", core.FuncName(fd), k), c.Pos(call.Pos()), types.ExprString(call))
+				}
+				return true
+			}
+			// R.Max.X / R.Max.Y
+			se, ok := m.(*ast.SelectorExpr)
+			if !ok || (se.Sel.Name != "X" && se.Sel.Name != "Y") {
+				return true
+			}
+			inner, ok := core.Unparen(se.X).(*ast.SelectorExpr)
+			if !ok || inner.Sel.Name != "Max" || !isRect(inner.X) {
+				return true
+			}
+			// an assignment to the corner (cropping a rectangle) is not a use of the extent
+			if len(stack) >= 2 {
+				if as, ok := stack[len(stack)-2].(*ast.AssignStmt); ok {
+					for _, l := range as.Lhs {
+						if l == ast.Expr(se) {
+							return true
+						}
+					}
+				}
+			}
+			k++
+			n++
+			key := fmt.Sprintf("canvas.%s|image extent #%d", core.FuncName(fd), k)
+			// the enclosing expression up to the statement mentions the Min of the same axis
+			paired := false
+			for i := len(stack) - 2; i >= 0; i-- {
+				if _, isStmt := stack[i].(ast.Stmt); isStmt {
+					break
+				}
+				ast.Inspect(stack[i], func(q ast.Node) bool {
+					if s2, ok := q.(*ast.SelectorExpr); ok && s2.Sel.Name == se.Sel.Name {
+						if in2, ok := core.Unparen(s2.X).(*ast.SelectorExpr); ok && in2.Sel.Name == "Min" && isRect(in2.X) {
+							paired = true
+						}
+					}
+					return true
+				})
+			}
+			if paired {
+				r.OK("E11.image-extent-from-size", key, c.Pos(se.Pos()), "Max − Min")
+			} else {
+				r.Fail("E11.image-extent-from-size", key, c.Pos(se.Pos()), fmt.Sprintf("`%s` takes the far corner of the image's rectangle without its near corner: for an image whose rectangle does not start at the origin (a SubImage) the extent, or an axis of reflection derived from it, is off by Min — under CartesianII–IV the image is drawn displaced by Min/resolution", types.ExprString(se)))
+			}
+			return true
+		})
+	}
+	r.Count("E11.image-extent-from-size", n)
+	r.Floor("E11.image-extent-from-size", 6)
 }
